@@ -6,6 +6,7 @@ import (
 	"path/filepath"
 	"regexp"
 	"sort"
+	"strings"
 
 	"verif/internal/gen"
 	"verif/internal/h"
@@ -285,4 +286,67 @@ func h2overlay(a, b map[string]string) map[string]string {
 		m[k] = v
 	}
 	return m
+}
+
+// c08nested: overrides written on a stage that INCLUDES a pipeline must not become part of the included pipeline:
+// running that pipeline directly (before or after it ran through the including stage, in the same process) behaves
+// as in a process that never used the including pipeline.
+func c08nested(c *h.Ctx) {
+	n := c.N(12, 240)
+	h.Par(n, 8, func(i int) {
+		r := h.NewRand(c.Seed*15485863+int64(i), "c08nested")
+		dir := caseDir(c, fmt.Sprintf("c08n.%d", i))
+		defer os.RemoveAll(dir)
+		real, _ := filepath.EvalSymlinks(dir)
+		os.MkdirAll(real+"/sub", 0o755)
+		os.MkdirAll(real+"/sub2", 0o755)
+		line := func(trace string) string {
+			return fmt.Sprintf("printf 'RUN X=[%%s] Y=[%%s] V=[{{ .V }}] W=[{{ .W }}] pwd=[%%s]\\n' \"$X\" \"$Y\" \"$(pwd)\" >> '%s'", trace)
+		}
+		mk := func(trace string) gen.OM {
+			inner1 := gen.OM{{K: "name", V: "i1"}, {K: "task", V: "shared"}}
+			if i%3 == 1 {
+				inner1.Set("env", gen.OM{{K: "Y", V: "inner-y"}})
+			}
+			inc := gen.OM{{K: "name", V: "inc"}, {K: "pipeline", V: "inner"}, {K: "env", V: gen.OM{{K: "X", V: "from-outer"}, {K: "Y", V: "outer-y"}}}, {K: "variables", V: gen.OM{{K: "V", V: "from-outer"}}}}
+			if i%2 == 0 {
+				inc.Set("dir", real+"/sub")
+			}
+			inc2 := gen.OM{{K: "name", V: "inc"}, {K: "pipeline", V: "inner"}, {K: "env", V: gen.OM{{K: "X", V: "from-outer2"}}}, {K: "variables", V: gen.OM{{K: "W", V: "from-outer2"}}}, {K: "dir", V: real + "/sub2"}}
+			return gen.OM{{K: "tasks", V: gen.OM{{K: "shared", V: gen.OM{{K: "command", V: []interface{}{line(trace)}}, {K: "variables", V: gen.OM{{K: "V", V: "task-v"}, {K: "W", V: "task-w"}}}}}}},
+				{K: "pipelines", V: gen.OM{{K: "inner", V: []interface{}{inner1, gen.OM{{K: "name", V: "i2"}, {K: "task", V: "shared"}, {K: "depends_on", V: []interface{}{"i1"}}}}},
+					{K: "outer", V: []interface{}{inc}}, {K: "outer2", V: []interface{}{inc2}}}}}
+		}
+		run := func(tag string, targets ...string) ([]string, h.ProcResult) {
+			trace := real + "/trace." + tag
+			f := real + "/" + tag + ".yaml"
+			h.WriteFile(f, gen.YAML(mk(trace)))
+			res := tc{Dir: real}.run(c, append([]string{"-c", f, "-o", "raw"}, targets...)...)
+			c.Eval(1)
+			return lines(strings.ReplaceAll(h.ReadFile(trace), trace, "")), res
+		}
+		ref, res0 := run("ref", "inner")
+		forms := [][]string{{"outer", "inner"}, {"inner", "outer", "inner"}, {"outer", "outer2", "inner"}, {"outer2", "inner"}}
+		targets := forms[r.Intn(len(forms))]
+		got, res := run("mixed", targets...)
+		cas := map[string]interface{}{"yaml": gen.YAML(mk("TRACE")), "targets": targets, "alone": ref, "mixed": got, "exit": res.Exit, "stderr": tail(stripANSI(string(res.Stderr)), 300)}
+		if crashed, how := res.Crashed(); crashed {
+			c.Violate("cli-crash/"+h.TopFrame(string(res.Stderr)), "taskctl died: "+how, cas)
+			return
+		}
+		if res0.Exit != 0 || res.Exit != 0 || len(ref) != 2 || len(got) < 2 {
+			c.Violate("cli-nested-run-failed", fmt.Sprintf("exit %d/%d, %d and %d executions recorded", res0.Exit, res.Exit, len(ref), len(got)), cas)
+			return
+		}
+		// the direct run of `inner` is the last target: its two executions are the last two lines
+		last := got[len(got)-2:]
+		if strings.Join(last, "\n") != strings.Join(ref, "\n") {
+			c.Violate("cli-including-stage-overrides-stay-in-included-pipeline", fmt.Sprintf("`taskctl %s`: the direct run of pipeline inner printed %q; in a process that never ran the including pipelines it prints %q", strings.Join(targets, " "), last, ref), cas)
+		}
+		if targets[0] == "inner" && strings.Join(got[:2], "\n") != strings.Join(ref, "\n") {
+			c.Violate("cli-including-stage-overrides-applied-at-load", fmt.Sprintf("`taskctl %s`: the first (direct) run of pipeline inner printed %q, alone it prints %q", strings.Join(targets, " "), got[:2], ref), cas)
+		}
+		c.Count("cli_nested_override_cases", 1)
+		c.Nontrivial(fmt.Sprint("nested", i%6, targets))
+	})
 }
